@@ -41,9 +41,17 @@ inductive BInstr
 def BInstr.kids : BInstr → List Nat
   | .block s => [s] | .loop s => [s] | .ifElse c a => [c, a] | _ => []
 
-abbrev BArena := TArena SeqTy BInstr
+/-- instruction with its `InstrLocId` -/
+abbrev LInstr := BInstr × Nat
+/-- sequence type with the location of the sequence end (`InstrSeq::end`) -/
+abbrev LSeqTy := SeqTy × Nat
 
-def bT (i : BInstr) : TInstr BInstr := ⟨i, i.kids⟩
+abbrev BArena := TArena LSeqTy LInstr
+
+def bT (i : LInstr) : TInstr LInstr := ⟨i, i.1.kids⟩
+
+/-- `InstrLocId::default()` -/
+def defaultLoc : Nat := 0xffffffff
 
 /-- id → index maps at emission time (`IdsToIndices` plus the per-function local map) -/
 structure IdMaps where
@@ -77,14 +85,17 @@ inductive BlockKind | block | loop | if_ | else_ | entry
 
 inductive EEv
   | start (s : Nat) (ty : SeqTy)
-  | instr (i : BInstr)
-  | fin (s : Nat)
+  | instr (i : BInstr) (loc : Nat)
+  | fin (s : Nat) (endLoc : Nat)
   deriving Repr
 
 structure EmitSt where
   blocks : List Nat            -- innermost first
   kinds : List BlockKind       -- innermost first
   out : List Op                -- emitted so far
+  /-- the `map` of the `Emit` visitor: (location, position) pairs; the position is the number of
+      operators emitted so far (the byte position is a function of it, see `Walrus/Offsets.lean`) -/
+  marks : List (Nat × Nat) := []
   deriving Repr
 
 /-- `get_*_index` of an id that was never pushed panics -/
@@ -106,18 +117,25 @@ def branchTarget (blocks : List Nat) (s : Nat) : Option Nat :=
   let i := blocks.idxOf s
   if i < blocks.length then some i else none
 
-/-- one visitor callback of `Emit`; `none` = panic -/
-def emitStep (m : IdMaps) (st : EmitSt) : EEv → Option EmitSt
-  | .instr (.block _) => some { st with kinds := .block :: st.kinds }
-  | .instr (.loop _) => some { st with kinds := .loop :: st.kinds }
-  | .instr (.ifElse _ _) => some { st with kinds := .if_ :: st.kinds }
-  | .instr (.br s) => (branchTarget st.blocks s).map fun d => { st with out := st.out ++ [⟨"Br", [.ref "l" d]⟩] }
-  | .instr (.brIf s) => (branchTarget st.blocks s).map fun d => { st with out := st.out ++ [⟨"BrIf", [.ref "l" d]⟩] }
-  | .instr (.brTable ts d) =>
-    match branchTarget st.blocks d, ts.mapM (branchTarget st.blocks) with
-    | some dd, some tts => some { st with out := st.out ++ [⟨"BrTable", tts.map (Arg.ref "l") ++ [.ref "l" dd]⟩] }
+/-- `visit_instr` for everything that is not a block-like instruction -/
+def emitPlain (m : IdMaps) (blocks : List Nat) : BInstr → Option Op
+  | .br s => (branchTarget blocks s).map fun d => ⟨"Br", [.ref "l" d]⟩
+  | .brIf s => (branchTarget blocks s).map fun d => ⟨"BrIf", [.ref "l" d]⟩
+  | .brTable ts d =>
+    match branchTarget blocks d, ts.mapM (branchTarget blocks) with
+    | some dd, some tts => some ⟨"BrTable", tts.map (Arg.ref "l") ++ [.ref "l" dd]⟩
     | _, _ => none
-  | .instr (.leaf op) => (mapArgs m op.args).map fun a => { st with out := st.out ++ [⟨op.name, a⟩] }
+  | .leaf op => (mapArgs m op.args).map fun a => ⟨op.name, a⟩
+  | _ => none
+
+/-- one visitor callback of `Emit`; `none` = panic. Every `visit_instr` and every `end_instr_seq`
+    first records `(location, position)`. -/
+def emitStep (m : IdMaps) (st : EmitSt) : EEv → Option EmitSt
+  | .instr (.block _) loc => some { st with kinds := .block :: st.kinds, marks := st.marks ++ [(loc, st.out.length)] }
+  | .instr (.loop _) loc => some { st with kinds := .loop :: st.kinds, marks := st.marks ++ [(loc, st.out.length)] }
+  | .instr (.ifElse _ _) loc => some { st with kinds := .if_ :: st.kinds, marks := st.marks ++ [(loc, st.out.length)] }
+  | .instr i loc =>
+    (emitPlain m st.blocks i).map fun op => { st with out := st.out ++ [op], marks := st.marks ++ [(loc, st.out.length)] }
   | .start s ty =>
     let st1 := { st with blocks := s :: st.blocks }
     match st.kinds with
@@ -127,19 +145,20 @@ def emitStep (m : IdMaps) (st : EmitSt) : EEv → Option EmitSt
     | .entry :: _ => some st1
     | .else_ :: _ => some st1
     | [] => none
-  | .fin _ =>
+  | .fin _ endLoc =>
+    let marks := st.marks ++ [(endLoc, st.out.length)]
     match st.blocks, st.kinds with
-    | _ :: bs, .if_ :: ks => some { blocks := bs, kinds := .else_ :: ks, out := st.out ++ [⟨"Else", []⟩] }
-    | _ :: bs, _ :: ks => some { blocks := bs, kinds := ks, out := st.out ++ [⟨"End", []⟩] }
+    | _ :: bs, .if_ :: ks => some { blocks := bs, kinds := .else_ :: ks, out := st.out ++ [⟨"Else", []⟩], marks := marks }
+    | _ :: bs, _ :: ks => some { blocks := bs, kinds := ks, out := st.out ++ [⟨"End", []⟩], marks := marks }
     | _, _ => none
 
 def emitFold (m : IdMaps) : EmitSt → List EEv → Option EmitSt
   | st, [] => some st
   | st, e :: r => (emitStep m st e).bind (emitFold m · r)
 
-def evStart (s : Nat) (ty : SeqTy) : List EEv := [.start s ty]
-def evInstr (i : BInstr) : List EEv := [.instr i]
-def evEnd (s : Nat) (_ty : SeqTy) : List EEv := [.fin s]
+def evStart (s : Nat) (ty : LSeqTy) : List EEv := [.start s ty.1]
+def evInstr (i : LInstr) : List EEv := [.instr i.1 i.2]
+def evEnd (s : Nat) (ty : LSeqTy) : List EEv := [.fin s ty.2]
 
 /-- the events `dfs_in_order` hands to the `Emit` visitor -/
 def bodyEvents (ar : BArena) (fuel entry : Nat) : List (Nat × Nat) × List EEv :=
@@ -151,7 +170,13 @@ def arenaFuel (ar : BArena) : Nat := 2 * (ar.foldl (fun n p => n + 2 + p.2.2.len
 def emitBody (m : IdMaps) (ar : BArena) (entry : Nat) : Option (List Op) :=
   let r := bodyEvents ar (arenaFuel ar) entry
   if !r.1.isEmpty then none else
-  (emitFold m ⟨[], [.entry], []⟩ r.2).map (·.out)
+  (emitFold m ⟨[], [.entry], [], []⟩ r.2).map (·.out)
+
+/-- emission together with the raw (location, operator position) map -/
+def emitBodyMarks (m : IdMaps) (ar : BArena) (entry : Nat) : Option (List Op × List (Nat × Nat)) :=
+  let r := bodyEvents ar (arenaFuel ar) entry
+  if !r.1.isEmpty then none else
+  (emitFold m ⟨[], [.entry], [], []⟩ r.2).map fun st => (st.out, st.marks)
 
 /-! ### `emit_locals` -/
 
@@ -166,7 +191,7 @@ def insertSorted (x : Nat) : List Nat → List Nat
 /-- local ids mentioned by the instructions the traversal visits (a set, ascending) -/
 def usedLocals (evs : List EEv) : List Nat :=
   evs.foldl (fun acc e => match e with
-    | .instr (.leaf op) => op.args.foldl (fun a x => match x with | .ref "x" id => insertSorted id a | _ => a) acc
+    | .instr (.leaf op) _ => op.args.foldl (fun a x => match x with | .ref "x" id => insertSorted id a | _ => a) acc
     | _ => acc) []
 
 /-- parameters at their positions; then the used non-parameter locals grouped by type in the
